@@ -186,15 +186,21 @@ def rule_c(ctx: Context, R: Reporter, F: Freshness):
                 b = node.func.value
                 inner = b.value if isinstance(b, ast.Subscript) else b
                 is_hist = isinstance(inner, ast.Attribute) and inner.attr == "_history"
-                if not is_hist and isinstance(b, ast.Subscript) and isinstance(b.value, ast.Name) and isinstance(b.slice, ast.Constant):
+                sec_name, sec_key = None, "?"
+                if not is_hist and isinstance(b, ast.Subscript) and isinstance(b.value, ast.Name):
+                    sec_name, sec_key = b.value.id, (b.slice.value if isinstance(b.slice, ast.Constant) else None)
+                elif not is_hist and isinstance(b, ast.Call) and isinstance(b.func, ast.Attribute) and b.func.attr in ("get", "setdefault") and isinstance(b.func.value, ast.Name) and b.args:
+                    sec_name, sec_key = b.func.value.id, (b.args[0].value if isinstance(b.args[0], ast.Constant) else None)
+                if sec_name is not None:
                     # a section of a locally built dict that still *is* the internal container:
-                    # d = {"_history": self._history}; d["_history"].pop(k)
+                    # d = {"_history": self._history}; d["_history"].pop(k)   (also d.get(section, {}).pop(k) with the
+                    # section name computed: then every section of the display is a candidate)
                     flow = flow_of(fi.node)
                     at = flow.node_containing(node)
-                    for d in (flow.reaching(at, b.value.id) if at is not None else []):
+                    for d in (flow.reaching(at, sec_name) if at is not None else []):
                         if isinstance(d.value, ast.Dict):
                             for k_, v_ in zip(d.value.keys, d.value.values):
-                                if isinstance(k_, ast.Constant) and k_.value == b.slice.value and isinstance(v_, ast.Attribute) and isinstance(v_.value, ast.Name) and v_.value.id == "self" \
+                                if isinstance(k_, ast.Constant) and (sec_key is None or k_.value == sec_key) and isinstance(v_, ast.Attribute) and isinstance(v_.value, ast.Name) and v_.value.id == "self" \
                                         and v_.attr in ("_history", "_current"):
                                     if node.func.attr in MUTATORS or node.func.attr in ("pop", "clear", "popitem", "update", "setdefault", "__delitem__"):
                                         R.check("C17.c", "internal state dictionaries are not mutated through an exported alias", False, fi, node,
@@ -220,6 +226,11 @@ def rule_c(ctx: Context, R: Reporter, F: Freshness):
             elif isinstance(node, (ast.Assign, ast.AugAssign, ast.Delete)):
                 tgts = node.targets if isinstance(node, (ast.Assign, ast.Delete)) else [node.target]
                 for t in tgts:
+                    # who-may-rebind: the history / current containers are replaced only by the state manager itself
+                    if isinstance(t, ast.Attribute) and t.attr in ("_history", "_current") and fi.cls is not sc:
+                        R.check("C17.c", "only the state manager replaces its history / current containers", False, fi, node,
+                                msg=f"{fi.short}: `{unparse(node)[:70]}` swaps the state manager's `{t.attr}` from outside: if anything between the swap and the restore raises, the "
+                                    f"committed history is gone (and every accessor meanwhile answers from the stand-in)", key=f"foreign-rebind:{fi.short}:{t.attr}")
                     # self._history[k][i] = v  / del self._history[k][i] / self._history[k] += ...
                     chain = []
                     x = t
